@@ -4,11 +4,13 @@
    (so the clauses are jointly satisfiable on every row, and each negative control shows a clause can
    fail), and the enumerated states are exported to the Go driver as the table of cases. *)
 EXTENDS Compression, TLC
+CONSTANTS Deep      \* 0 = quick table, 1 = thorough table (more message sequences and accept lists)
 VARIABLES cfg
 vars == <<cfg>>
 
 Regs == {{"gzip"}, {"gzip", "vrle"}}
-MsgSeqs == {<<0>>, <<1>>, <<0, 1>>}          \* 1 = empty message
+MsgSeqs == {<<0>>, <<1>>, <<0, 1>>} \cup (IF Deep = 1 THEN {<<1, 0>>, <<0, 0>>, <<1, 1, 0>>} ELSE {})   \* 1 = empty message
+Advs == {{}, {"gzip"}, {"vrle"}, {"gzip", "vrle"}, {"gzip", "vleg"}} \cup (IF Deep = 1 THEN {{"vleg"}, {"identity"}, {"nope", "vrle"}} ELSE {})
 Blank == [kind |-> "", reg |-> {}, use |-> "", legacy |-> "", dc |-> "", cp |-> "", accept |-> {}, adv |-> {},
           renc |-> "", flag |-> 0, pk |-> "", empty |-> 0, setsend |-> "", msgs |-> <<>>]
 
@@ -22,7 +24,7 @@ Sreq == {[Blank EXCEPT !.kind = "sreq", !.reg = r, !.dc = d, !.renc = e, !.flag 
            f \in 0..1, p \in {"enc", "raw"}, z \in 0..1}
 Sresp == {[Blank EXCEPT !.kind = "sresp", !.reg = r, !.cp = c, !.renc = e, !.adv = a, !.setsend = s, !.msgs = m] :
            r \in Regs, c \in {"", "gzip", "vleg"}, e \in {"", "identity", "gzip", "vrle"},
-           a \in {{}, {"gzip"}, {"vrle"}, {"gzip", "vrle"}, {"gzip", "vleg"}},
+           a \in Advs,
            s \in {"", "identity", "gzip", "vrle", "nope"}, m \in MsgSeqs}
 
 Init == cfg \in Creq \cup Cresp \cup Sreq \cup Sresp
